@@ -347,6 +347,7 @@ class Oracle:
     (property, class_tag, message).  class_tag names the known class when the failing step falls in one."""
 
     def __init__(self):
+        self.match_stats = {}    # accepted matches inside / outside the side condition of the theorems (InvBid.small_products)
         self.reset()
 
     def reset(self):
@@ -630,6 +631,18 @@ class Oracle:
             out.append(("C05", None, "refused request carries messages"))
         # ---- C03: what an accepted match must satisfy (state before)
         if b.ok and k in ("EXEC", "PEXEC") and ev.sub == "execute_match" and self.cfg is not None and not self.seeded:
+            if k == "EXEC":
+                try:
+                    b0 = self.bids.get(fmt.dec(ev.args[1]))
+                    sz = int(ev.args[3])
+
+                    def mant(text):
+                        return int(text.replace("_", "").lstrip("+-").replace(".", "") or "0")
+                    inside = mant(fmt.dec(ev.args[2])) * sz < 2 ** 96 and mant(b0.price) * sz < 2 ** 96
+                    key = "small_products holds" if inside else "outside (mantissa*size >= 2^96)"
+                    self.match_stats[key] = self.match_stats.get(key, 0) + 1
+                except Exception:
+                    self.match_stats["not judged"] = self.match_stats.get("not judged", 0) + 1
             for cls, msg in self.match_check(ev):
                 out.append(("C03", cls, msg))
                 if k == "EXEC" and self.tainted is None and cls == "K_inexact":
